@@ -168,5 +168,57 @@ pub fn concurrent(args: &[String]) {
         lines.extend(trace::take());
     }
     trace::write_ndjson(out, &lines).unwrap();
-    println!("REPORT {}", json!({"runs":runs,"lines":lines.len()}));
+    trace::disable();
+    // the same invariants evaluated directly (OneTruePerGrowth, MaxFinal) on many more races than
+    // can be traced: 4 threads offer ids to one cell at the same instant
+    let mut bad = Vec::new();
+    let rounds = 60_000usize;
+    let cell = Arc::new(AtomicReloadId::new());
+    let start = Arc::new(std::sync::atomic::AtomicUsize::new(0));
+    let trues = Arc::new(std::sync::atomic::AtomicUsize::new(0));
+    let offers: Arc<Vec<[usize; 4]>> = Arc::new((0..rounds).map(|_| [rng.gen_range(1..=maxid), rng.gen_range(1..=maxid), rng.gen_range(1..=maxid), rng.gen_range(1..=maxid)]).collect());
+    let done = Arc::new(std::sync::atomic::AtomicUsize::new(0));
+    let hs: Vec<_> = (0..4).map(|t| {
+        let (cell, start, trues, offers, ids, done) = (cell.clone(), start.clone(), trues.clone(), offers.clone(), ids.clone(), done.clone());
+        std::thread::spawn(move || {
+            for r in 0..offers.len() {
+                while start.load(std::sync::atomic::Ordering::Acquire) < r + 1 {
+                    std::hint::spin_loop();
+                }
+                if cell.update(ids[offers[r][t]]) {
+                    trues.fetch_add(1, std::sync::atomic::Ordering::SeqCst);
+                }
+                done.fetch_add(1, std::sync::atomic::Ordering::SeqCst);
+            }
+        })
+    }).collect();
+    for r in 0..rounds {
+        cell.store(ids[0]);
+        trues.store(0, std::sync::atomic::Ordering::SeqCst);
+        done.store(0, std::sync::atomic::Ordering::SeqCst);
+        start.store(r + 1, std::sync::atomic::Ordering::Release);
+        while done.load(std::sync::atomic::Ordering::SeqCst) < 4 {
+            std::hint::spin_loop();
+        }
+        let max = *offers[r].iter().max().unwrap();
+        let fin = idx(&ids, cell.load());
+        let t = trues.load(std::sync::atomic::Ordering::SeqCst);
+        // every TRUE is a strict growth of a max-register that ends at `max`: between 1 and the number of distinct offers <= max
+        let mut distinct: Vec<usize> = offers[r].to_vec();
+        distinct.sort();
+        distinct.dedup();
+        if fin != max as i64 || t < 1 || t > distinct.len() {
+            if bad.len() < 5 {
+                bad.push(json!({"offers":offers[r],"final":fin,"trues":t}));
+            }
+        }
+        // same id offered by all: exactly one TRUE
+        if distinct.len() == 1 && t != 1 && bad.len() < 5 {
+            bad.push(json!({"offers":offers[r],"final":fin,"trues":t,"same_id":true}));
+        }
+    }
+    for h in hs {
+        h.join().unwrap();
+    }
+    println!("REPORT {}", json!({"runs":runs,"lines":lines.len(),"fast_rounds":rounds,"fast_violations":bad}));
 }
